@@ -1,7 +1,8 @@
 """C17 The static type checker is sound where it commits and silent on well-typed code.
 
-Proof: coq/Typing/{Model,Proofs}.v + Properties/C17.v (model of expression typing, binding collection and the bounded
-union iteration of solve_bindings; C16's types, `denote` and union normalisation are reused).
+Proof: coq/Typing/{Model,Proofs,OpSound,StmtSound,WellTyped}.v + Properties/C17.v (model of expression typing, binding collection
+and the bounded union iteration of solve_bindings; per-operator expression soundness, straight-line module soundness, completeness on
+the generator's typing rules; C16's types, `denote` and union normalisation are reused).
 Tie (harness bin `typecheck`, three typecheck runs per module, then the module is RUN):
   * no-crash / determinism: every parseable *.star / *.bzl / test snippet under the repository + all generated modules;
   * silence: modules from the type-directed generator (tools/gen/typed.py on gen.progs, well typed by construction,
@@ -262,6 +263,8 @@ def classify_unsound(case, name, tys, values):
         return "unsound:int-mul-any"
     if vk == "tuple" and ty.startswith("(") and re.search(r"\[[^\]]*:[^\]]*\]", form):
         return "unsound:tuple-slice-keeps-arity"
+    if vk in ("list", "tuple") and ty == "str" and re.search(r"\[[^\]]*:[^\]]*\]", form):
+        return "unsound:slice-drops-iterable-alternative"      # x: str | typing.Iterable; x[i:j] typed str (C17_refuted_iterable_slice)
     return "unsound-binding:%s:%s:%s" % (ty, vk, re.sub(r"[a-z]+\d+", "_", form)[:60])
 
 
@@ -486,7 +489,8 @@ def correspond(ctx):
     return {"coverage": cov, "failures": dedup(failures), "broken": broken}
 
 
-KNOWN_HERE = ("unsound:int-mul-any", "unsound:tuple-slice-keeps-arity", "false-error:incompatible-type:tuple-literal-index")
+KNOWN_HERE = ("unsound:int-mul-any", "unsound:tuple-slice-keeps-arity", "unsound:slice-drops-iterable-alternative",
+              "false-error:incompatible-type:tuple-literal-index")
 
 
 def translator_broken():
@@ -530,23 +534,42 @@ def replay(ctx, rep):
 
 META = {
     "category": "proof",
-    "level_text": "Partial. Coq (Properties/C17.v, closed under the global context) proves for the model of solve_bindings/expression_type: the union "
-                  "iteration is a structurally bounded loop over the EXTRACTED constant ITERATIONS and an unflagged result is stable under a further pass "
-                  "(C17_solve_terminates_flagged: non-convergence is flagged, never silent); an unflagged result is a post-fixpoint - every binding "
-                  "expression's type is absorbed by the binding's type, hence every value of the expression's type belongs to the binding's type "
-                  "(C17_solve_post_fixpoint, C17_solve_post_fixpoint_denote); expression typing is sound w.r.t. a pure semantics of the mutation-free "
-                  "expression fragment for the checker with the `int * Any` rule repaired (C17_infer_expr_sound_partial) and the faithful rule is "
-                  "REFUTED by the model (C17_infer_expr_sound_refuted: `3 * s` with s: Any is typed `float | int`, the value is a string) - the same "
-                  "witness fails on the implementation (known finding unsound:int-mul-any). Missing from the proof: statements/defs/calls in the "
-                  "semantics (soundness of whole modules), completeness (welltyped_no_error) beyond literals-and-operators, the full oracle. The property "
-                  "on the real code is decided by the tie: three identical typecheck runs without crash on every parseable file of the repository and on "
-                  "generated modules; no diagnostic on well-typed generated modules; and the DIRECT ORACLE isinstance(value, committed type) for every "
-                  "binding of every top-level def and every exported name at run time; model types equal TypeMap on the modelled fragment.",
+    "level_text": "Partial. Coq (Properties/C17.v, all closed under the global context) proves for the model of solve_bindings/expression_type: "
+                  "(1) the union iteration is a structurally bounded loop over the EXTRACTED constant ITERATIONS and an unflagged result is stable "
+                  "under a further pass (C17_solve_terminates_flagged: non-convergence is flagged, never silent); an unflagged result is a "
+                  "post-fixpoint, hence every value of a binding expression's type belongs to the binding's type (C17_solve_post_fixpoint, "
+                  "C17_solve_post_fixpoint_denote). (2) EXPRESSION SOUNDNESS for the operator fragment of a pure semantics "
+                  "(C17_infer_expr_sound_ops, for the checker as it is and for the repaired one): literals, names, list/tuple/dict displays, "
+                  "+ - ~ not, the ten int arithmetic/bitwise operators, + and * on str/list/tuple, comparisons, == !=, in / not in, and/or/"
+                  "conditional, indexing of list/tuple/dict, slicing of str/list/tuple, calls of the pure builtins len str bool int any all abs "
+                  "min max sorted list - one lemma per operator family (C17_bin_op_sound, C17_index_sound, C17_slice_sound, C17_builtin_sound) - "
+                  "under the explicit boolean side condition `sound_ops`, which excludes exactly THREE rules that the faithful model REFUTES "
+                  "with vm_compute witnesses: `int * Any` typed `float | int` (C17_refuted_int_mul_any, known finding unsound:int-mul-any), the "
+                  "slice of a fixed-arity tuple keeping its arity (C17_refuted_tuple_slice, known finding unsound:tuple-slice-keeps-arity), and "
+                  "NEW: the slice of a union with a typing.Iterable alternative, where typecheck_union_simple drops the Iterable alternative "
+                  "(C17_refuted_iterable_slice: `x: str | typing.Iterable; y = x[0:1]` is typed `str`, f([1, 2]) binds y = [1]; reproduced on the "
+                  "real checker with harness bin typecheck, isinstance is False). Every type the checker computes from normalised types is "
+                  "normalised (C17_infer_wf; the invariant the soundness proof needs). (3) WHOLE-MODULE SOUNDNESS FOR STRAIGHT-LINE MODULES "
+                  "(C17_infer_sound_straightline): for a sequence of assignments `x = e` with right-hand sides in the fragment, an unflagged "
+                  "solver result and no diagnostic, after running the assignments every binding the checker commits to holds a value of the "
+                  "committed type. (4) COMPLETENESS on the generator's typing rules (C17_welltyped_no_error): an expression derivable by the "
+                  "inductive typing relation `wt` that mirrors tools/gen/progs.py (displays, operators, == at any type, list indexing, slicing, "
+                  "builtins, list(range(..)), calls of defs with defaults, list/dict comprehensions) gets no diagnostic in the model checker and "
+                  "its committed type is compatible with the generator's type; rests on C17_unions_keep_compat (Ty::unions keeps compatibility) "
+                  "and C17_compatible_types_intersect (intersects after widen_numeric). "
+                  "Still missing from the proof: soundness with control flow (if/for/def bodies), tuple-unpacking targets, augmented assignment, "
+                  "comprehensions/methods/lambdas/calls of defs in the semantics (they are in the model and in the tie); completeness at statement "
+                  "level (that the solver result satisfies the environment hypothesis of C17_welltyped_no_error for every generated program), "
+                  "methods, lambdas, keyword arguments, enumerate/zip/reversed; the full oracle. The property on the real code is decided by the "
+                  "tie: three identical typecheck runs without crash on every parseable file of the repository and on generated modules; no "
+                  "diagnostic on well-typed generated modules; and the DIRECT ORACLE isinstance(value, committed type) for every binding of every "
+                  "top-level def and every exported name at run time; model types equal TypeMap on the modelled fragment.",
     "level_note": "Trusted: Coq kernel; harness bin typecheck; tools/gen/{progs,typed}.py; vm_compute route; isinstance as membership (C16). Modelled rather "
                   "than verified: the oracle's ~270 native signatures (only the result types of the dozen builtins the generator uses), attributes and "
                   "methods, loads/interfaces across modules, container mutation (append/extend/setitem bindings), lambdas; bindings are identified by name. "
                   "The tie is differential/dynamic testing, so an unsound rule outside the generated forms can escape.",
-    "technique": "Coq model of the checker + proof of flagged termination / post-fixpoint / expression soundness (with refutation witness); type-directed "
+    "technique": "Coq model of the checker + proofs of flagged termination / post-fixpoint / per-operator expression soundness under an explicit side "
+                 "condition (three refutation witnesses) / straight-line module soundness / completeness on the generator's typing rules; type-directed "
                  "generator; run-time isinstance oracle on the implementation's committed types; model vs TypeMap comparison",
     "design_ref": "DESIGN.md section 4 C17, section 6",
 }
